@@ -291,11 +291,35 @@ def c05i(F, R):
             R.ok(f"{v}", detail=f"{v} is never exempt ({len(envs)} operand combinations with rd = x0)", where=sp)
 
 
-@rule("C05", "C05.j.what-a-search-finds-reaches-the-report", floor=10)
+def lint_fn_closure(F):
+    """the lint passes and the helper functions of the lints module they call (transitively): [(label, path)]. A block of a lint moved into a private helper stays under the same rules"""
+    from .p_cfg import pass_impls, LINTPASS
+    out, seen = [], set()
+    work = [(short(ty), rp) for ty, rp in sorted(pass_impls(F, LINTPASS).items())]
+    while work:
+        label, q = work.pop(0)
+        if q in seen:
+            continue
+        seen.add(q)
+        out.append((label, q))
+        g = F.fns.get(q)
+        if not g or "hir" not in g:
+            continue
+        for c in walk(g["hir"]["value"], pats=False):
+            if c.get("k") in ("Call", "MethodCall"):
+                t = callee_of(c) or declared_callee(c) or ""
+                if "::lints::" in t and t in F.fns and "hir" in F.fns[t] and t not in seen:
+                    work.append((short(t), t))
+    return out
+
+
+
+@rule("C05", "C05.j.what-a-search-finds-reaches-the-report", floor=6)
 def c05j(F, R):
     """in the lints and in the searches they call, a local that starts empty (`None`, `Vec::new()`) and is later read to decide what is reported must be written in between: an `if let Some(x) = it` whose `it` is never set, or a `for r in ranges` whose `ranges` is never filled, is a report that can no longer happen - the lint stays registered, its kind stays constructible, and it never fires"""
     from .p_cfg import pass_impls, LINTPASS
-    roots = set(pass_impls(F, LINTPASS).values()) | {q for q in F.fns if "::cfg::graph::Cfg::error_ranges_for_" in q}
+    impls = set(pass_impls(F, LINTPASS).values())
+    roots = {q for _, q in lint_fn_closure(F)} | {q for q in F.fns if "::cfg::graph::Cfg::error_ranges_for_" in q}
     n = 0
     for q in sorted(roots):
         g = F.fns.get(q)
@@ -335,7 +359,7 @@ def c05j(F, R):
                 if par.get("k") in ("Call", "MethodCall") and any(a_ is x for a_ in par.get("args", [])) and "&mut" in (x.get("ty") or x.get("aty") or ""):
                     written = True
             n += 1
-            key = f"{short(q.split('::{closure')[0]) if 'error_ranges' in q else short(q.rsplit('::', 1)[0].split(' as ')[0].lstrip('<'))}|{name}"
+            key = f"{short(q.split('::{closure')[0]) if ('error_ranges' in q or q not in impls) else short(q.rsplit('::', 1)[0].split(' as ')[0].lstrip('<'))}|{name}"
             # a worklist that is only refilled inside the loop that empties it never starts
             pops = [u for u in uses if pm.get(id(u), {}).get("k") == "MethodCall" and pm[id(u)]["name"] in ("pop", "pop_front", "pop_back") and pm[id(u)]["recv"] is u]
             if pops and written:
@@ -523,14 +547,30 @@ def c05l(F, R):
             R.ok(f"{suffix}|{variant}", detail=f"fires exactly for {what}", where=loc(c))
 
 
-@rule("C05", "C05.m.no-loop-over-a-collection-known-to-be-empty", floor=2)
+def _always_leaves(blk):
+    """does this block end in return / continue / break on its straight-line path?"""
+    b = peel(blk)
+    while b.get("k") in ("DropTemps", "Use"):
+        b = peel(b["e"])
+    if b.get("k") in ("Ret", "Continue", "Break"):
+        return True
+    if b.get("k") == "Block":
+        last = b.get("expr")
+        if last is None and b.get("stmts"):
+            last = b["stmts"][-1]
+            if last.get("k") in ("Semi", "Expr"):
+                last = last["e"]
+        return last is not None and _always_leaves(last)
+    return False
+
+
+@rule("C05", "C05.m.no-loop-over-a-collection-known-to-be-empty", floor=1)
 def c05m(F, R):
     """a lint that guards its work with an emptiness test runs it when the collection is *not* empty: a `for x in C` (or `C.iter()`) nested under a condition that holds only when `C.is_empty()` can never do anything - `if !garbage.is_empty()` with the `!` lost silences the lint for reads of registers that were never assigned"""
     from .p_cfg import pass_impls, LINTPASS
     from .p_parse import parent_map
-    lints = pass_impls(F, LINTPASS)
     n = 0
-    for ty, rp in sorted(lints.items()):
+    for ty, rp in lint_fn_closure(F):
         g = F.fns.get(rp)
         if not g or "hir" not in g:
             continue
@@ -557,7 +597,25 @@ def c05m(F, R):
                 key = f"{short(ty)}|{C}"
                 dead_then = t_when_empty and not t_when_full and uses_in(iff["then"])
                 dead_else = (not t_when_empty) and t_when_full and iff.get("else") is not None and uses_in(iff["else"])
-                if dead_then or dead_else:
+                # the early-exit spelling: `if <guard> { return / continue }` - what follows in the block runs only when the guard is false
+                dead_after = False
+                blk = pm.get(id(iff))
+                while blk is not None and blk.get("k") in ("DropTemps", "Use"):
+                    blk = pm.get(id(blk))
+                if blk is not None and blk.get("k") in ("Semi", "Expr"):
+                    blk = pm.get(id(blk))
+                diverges = iff.get("else") is None and _always_leaves(iff["then"])
+                if diverges and blk is not None and blk.get("k") == "Block":
+                    after, seen_if = [], False
+                    for st in blk.get("stmts", []) + ([blk["expr"]] if blk.get("expr") is not None else []):
+                        if seen_if:
+                            after.append(st)
+                        elif st is iff or any(y is iff for y in walk(st, pats=False)):
+                            seen_if = True
+                    # reached only if the guard is false: dead when "guard false" forces the collection to be empty
+                    if t_when_full and not t_when_empty and any(uses_in(st) for st in after):
+                        dead_after = True
+                if dead_then or dead_else or dead_after:
                     R.bad(key, f"{short(ty)} loops over `{C}` in a branch that is only taken when `{C}` is empty: nothing in that loop can run, so what it reports is never reported", loc(iff))
                 else:
                     R.ok(key, detail=f"`{C}` is walked where it can be non-empty", where=loc(iff))
